@@ -119,6 +119,14 @@ Expect(s, ev) ==
          IN [st |-> s, ok |-> okS /\ okFK /\ okCK,
              why |-> IF ~okS THEN "asm arm64: S-box copy" ELSE "asm arm64: FK/CK copy"]
 
+    [] ev.op = "asm.arm64imm" ->
+         \* Reduce: the low 64 bits of the GHASH polynomial x^128 + x^7 + x^2 + x + 1 (bits 7, 2, 1, 0 = 0x87), little
+         \* endian, in both 64-bit lanes; CONST: 64 (the stride that splits the 256-byte S-box into four TBL tables)
+         LET want(r) == IF r = "Reduce" THEN <<135, 0, 0, 0, 0, 0, 0, 0, 135, 0, 0, 0, 0, 0, 0, 0>>
+                        ELSE [i \in 1..16 |-> 64]
+             okAll == \A i \in 1..Len(ev.inits) : ev.inits[i].bytes = want(ev.inits[i].reg)
+         IN [st |-> s, ok |-> okAll, why |-> "asm arm64: constant built from an instruction immediate"]
+
 InitSt == <<>>
 TC == INSTANCE TraceCommon
 Spec == TC!Spec
